@@ -16,9 +16,16 @@ type Part struct {
 	K     string  `json:"k"`               // text | print | tag | plural
 	S     string  `json:"s,omitempty"`     // text / tag text
 	E     core.E  `json:"e,omitempty"`     // print expression / plural subject
+	Dirs  []Dir   `json:"dirs,omitempty"`  // print directives
 	B     string  `json:"b,omitempty"`     // base name derived by the spec
 	Cases []PCase `json:"cases,omitempty"` // plural cases
 	Dflt  []Part  `json:"dflt,omitempty"`  // plural default body
+}
+
+// Dir is one print directive.
+type Dir struct {
+	Name string   `json:"name"`
+	Args []core.E `json:"args"`
 }
 
 // PCase is one {case v} of a plural.
@@ -72,6 +79,17 @@ func UnparseBody(parts []Part) string {
 			b.WriteString(p.S)
 		case "print":
 			src := UnparseExpr(p.E)
+			for _, d := range p.Dirs {
+				src += "|" + d.Name
+				for i, a := range d.Args {
+					if i == 0 {
+						src += ":"
+					} else {
+						src += ","
+					}
+					src += UnparseExpr(a)
+				}
+			}
 			if strings.HasPrefix(src, "$") {
 				b.WriteString("{" + src + "}")
 			} else {
